@@ -61,10 +61,11 @@ def gen_layout(ch, label, kind, name, desc, rich):
     k_before = ch.int(label + ".nb", 0, 2 if rich else 1) if ch.chance(label + ".surround", 0.75 if rich else 0.4) else 0
     k_after = ch.int(label + ".na", 0, 2 if rich else 1) if ch.chance(label + ".surround2", 0.6 if rich else 0.3) else 0
     coll = _colliding(desc, name)
-    before = render.unrelated_statements(ch, label + "b", coll, k_before)
+    bound0 = name.split(".")[0]
+    before = render.unrelated_statements(ch, label + "b", coll, k_before, local_name=bound0)
     # statements after the definition may re-bind or use the name it binds (a decorator applied by hand, an alias)
     bound = name.split(".")[0]
-    after = render.unrelated_statements(ch, label + "a", coll, k_after, after_def=bound if rich or ch.chance(label + ".rb", 0.5) else None)
+    after = render.unrelated_statements(ch, label + "a", coll, k_after, after_def=bound if rich or ch.chance(label + ".rb", 0.5) else None, local_name=bound)
     siblings = []
     if "." in name:
         for i in range(ch.int(label + ".nsib", 0, 2)):
@@ -77,7 +78,11 @@ def gen_layout(ch, label, kind, name, desc, rich):
             ])
             siblings.append({"where": where, "src": src})
     return Layout(kind, name, before, after, trailing_newline=ch.chance(label + ".nl", 0.8),
-                  module_doc="Module %s." % label.replace(".", " ") if ch.chance(label + ".mdoc", 0.2) else None, siblings=siblings)
+                  module_doc=ch.choice(label + ".mdocv", [
+                      "Module %s." % label.replace(".", " "),
+                      "Settings of the %s module.\n\nname      meaning\nalpha     first  column\nbeta      second column\n" % label.replace(".", " "),
+                      "Notes:\n    indented    text with    runs of blanks",
+                  ]) if ch.chance(label + ".mdoc", 0.25) else None, siblings=siblings)
 
 
 def gen_style(ch, label):
@@ -242,6 +247,10 @@ def gen_scenario(seed, focus="C20"):
             op = copy.deepcopy(last_sync)
             op["truth"] = ch.choice(lab + ".alt", others)
             truth = op["truth"]
+            if truth != "argparse_function" and "function" in op["targets"]:
+                # the truth file is never also named as a target of another kind
+                own = set(proj.by_kind["function"])
+                op["targets"]["function"]["files"] = [f for f in op["targets"]["function"]["files"] if f in own]
             last_sync = op
         elif what == "edit_truth":
             proj.new_version(lab + ".edit")
@@ -382,7 +391,8 @@ def sp_op(proj, ch, lab, _files):
     evalname = "CHOICES"
     # a second evaluable name that only some versions of the input module define
     with_extra = ch.chance(lab + ".extra", 0.5)
-    consts = "%s = ('p', 'q', 'r')\n%smodule_attr: %s = %s" % (evalname, "EXTRA = ('u', 'v')\n" if with_extra else "", ctyp, cdef)
+    choices_val = tch.choice("choicesval", ["('p', 'q', 'r')", "('p', 'q', 'r')", "(0, 1, False, True)", "[1, 1.0, 2]", "('a', 'a', 'b')", "(2, 3, 5)"])
+    consts = "%s = %s\n%smodule_attr: %s = %s" % (evalname, choices_val, "EXTRA = ('u', 'v')\n" if with_extra else "", ctyp, cdef)
     inp = SP_INPUT.format(consts=consts, cattr=cattr, ctyp=ctyp, cdef=cdef, marg=marg, mtyp=mtyp, mdef=mdef, farg=farg, ftyp=ftyp,
                           kwarg=kwarg, kwtyp=kwtyp, kwdef=kwdef)
     outp = SP_OUTPUT.format(oconst=oconst, oarg=oarg, oattr=oattr, omarg=omarg, okw=okw, okw2=okw2)
